@@ -64,7 +64,14 @@ func (p *Program) VerifyFunction(c *Contract, opts Options) (rep *FuncReport) {
 func (ex *Exec) verifyTop() {
 	fn, c, vc := ex.fn, ex.contract, ex.vc
 	st := &State{locals: map[*ssa.Alloc]Val{}, iters: map[ssa.Value]Term{}, heaps: map[string]Term{}}
-	st.origin = func(name string, sort Sort) Term { return vc.declare(name+"@0", sort) }
+	st.origin = func(name string, sort Sort) Term {
+		first := !vc.declared[quoteSym(name+"@0")]
+		h := vc.declare(name+"@0", sort)
+		if ax := heapRangeAxiom(name, h); first && !ax.IsTrue() {
+			vc.lateDecls = append(vc.lateDecls, "(assert "+ax.S+")")
+		}
+		return h
+	}
 	st.top = vc.declare("top@0", SInt)
 	vc.assume(Gt(st.top, IntLit(0)))
 	fr := ex.newFrame(fn, nil, "")
